@@ -173,11 +173,59 @@ def check_c16(v: Verdict, n_worlds: int):
                     if fname == "json":
                         add_json_case(w, conv, t, x, cases, meta, desc)
         user_hooks(v, rng, w, hist)
+    quoted_annotations(v, hist)
     run_json_model(v, cases, meta)
     v.coverage["input_distribution"] = hist
 
 
 # ------------------------------------------------------------------ user hooks, attrs classes and dataclasses alike
+
+# classes with MIXED annotations: a quoted forward reference next to real annotations (module level: resolvable by name)
+@attrs.define
+class QLeaf:
+    a: int = 0
+    _secret: int = 1
+
+
+@attrs.define
+class QHolder:
+    n: int
+    leaf: "QLeaf"
+
+
+@dataclasses.dataclass
+class QDHolder:
+    n: int
+    leaf: "QLeaf"
+
+
+def quoted_annotations(v, hist):
+    """a class one of whose annotations is a quoted forward reference (the others are real): round trip of a value whose quoted
+    attribute holds a class with a private attribute, and a user hook registered for that class, through every format"""
+    for f, m in FORMATS.items():
+        for holder, T in (("attrs class", QHolder), ("dataclass", QDHolder)):
+            for hooked in (False, True):
+                conv = m.make_converter()
+                if hooked:
+                    conv.register_unstructure_hook(QLeaf, lambda v_: {"A!": v_.a, "S!": v_._secret})
+                    conv.register_structure_hook(QLeaf, lambda d, _: QLeaf(d["A!"], d["S!"]))
+                x = T(4, QLeaf(2, 9))
+                hist["quoted_annotation_checks"] = hist.get("quoted_annotation_checks", 0) + 1
+                desc = {"lane": "PRE/C16", "format": f, "holder": f"{holder} with a quoted annotation `leaf: \"QLeaf\"` next to `n: int`",
+                        "user_hook_for_QLeaf": hooked, "value": repr(x)}
+                v.count(repr(("quoted", f, holder, hooked)), True)
+                try:
+                    data = conv.dumps(x, unstructure_as=T)
+                    text = data.decode() if isinstance(data, bytes) else data
+                    y = conv.loads(data, T)
+                except Exception as e:
+                    v.violation("round trip failed for a class with a quoted annotation", {**desc, "raised": repr(e)[:300]})
+                    continue
+                if hooked and "A!" not in text:
+                    v.violation("the user's unstructure hook was not used below a quoted annotation", {**desc, "dumped": text[:300]})
+                elif not deep_same(y, x):
+                    v.violation("loads(dumps(x, T), T) differs from x (class with a quoted annotation)", {**desc, "dumped": text[:300], "loaded": repr(y)[:300]})
+
 
 def user_hooks(v, rng, w: World, hist):
     """A hook registered for a class must be used wherever values of that class are un/structured:
